@@ -27,7 +27,7 @@ class DictSub(DictArray):
     """DictArray that is dumped by the worker: the code path of shared_memory_dict without a manager process."""
 
     storage_id = "dict_sub"
-    requires_serialization = False
+    requires_serialization = True  # like shared_memory_dict (needs a run folder, is persisted at the end)
 
     @property
     def dump_in_subprocess(self) -> bool:
@@ -50,7 +50,7 @@ def run_map(tid, storage, n0, n1, n2, *vals, with_folder=False, as_array=False):
             shims.TOK.clear()
             log = tmpl.Log()
             p = tmpl.make_pipeline(t.funcs, log)
-            folder = L.scratch_dir() if (with_folder or storage == "file_array") else None
+            folder = L.scratch_dir() if (with_folder or storage in ("file_array", "dict_sub")) else None
         inputs = t.inputs(n, v)
         if as_array:
             inputs = {k: (np.array(x, dtype=object) if isinstance(x, list) else x) for k, x in inputs.items()}
@@ -113,7 +113,7 @@ def _canary_default_wins():
 CANARIES["swap_results_when_three_missing"] = _canary_pair_swap
 CANARIES["default_beats_input"] = _canary_default_wins
 
-QUICK_T = ["TN", "T1", "T2", "T3", "T4", "T5", "T6", "T7", "T7p", "T8", "T9", "T10", "T11", "T12", "T13", "T14", "T16", "T18"]
+QUICK_T = ["TN", "T1", "T2", "T3", "T4", "T5", "T6", "T7", "T7p", "T8", "T9", "T10", "T11", "T12", "T13", "T14", "T16", "T18", "T19", "T20", "TN2"]
 
 
 def obligations(tier):
